@@ -355,7 +355,7 @@ func c16Run(plan *C16Plan) (*c16Violation, map[string]bool) {
 		if edge {
 			lateFrom = start.Add(timeout / 2)
 		}
-		time.Sleep(timeout + 60*time.Millisecond - time.Since(lateFrom))
+		time.Sleep(timeout + 300*time.Millisecond - time.Since(lateFrom))
 		for _, idx := range lateIdx {
 			call := plan.Calls[idx]
 			call.Behave = "answer"
@@ -371,6 +371,7 @@ func c16Run(plan *C16Plan) (*c16Violation, map[string]bool) {
 		return &c16Violation{"C16/call-hung", "a synchronous call did not return within the request time-out plus 5 s"}, flags
 	}
 	kinds := map[string]bool{}
+	slipped := map[int]bool{}
 	for i, call := range plan.Calls {
 		kinds[call.Kind] = true
 		o := results[i]
@@ -386,15 +387,19 @@ func c16Run(plan *C16Plan) (*c16Violation, map[string]bool) {
 		}
 		switch call.Behave {
 		case "late":
-			// only a verdict if the response was really written after this call's own deadline
-			if !sa.IsZero() && sa.Before(ca.Add(timeout+20*time.Millisecond)) {
+			// only a verdict if the response was written well after this call's own deadline (the
+			// client's timer starts a little after the call was issued: queueing and sending come first)
+			if !sa.IsZero() && sa.Before(ca.Add(timeout+150*time.Millisecond)) {
 				flags["slipped-under-load"] = true
+				slipped[i] = true
 				continue
 			}
 		case "answer", "reject":
-			// only a verdict if the response was written well inside this call's own time-out
-			if sa.IsZero() || sa.After(ca.Add(timeout*6/10)) {
+			// only a verdict if the response was written after the call was issued and well inside
+			// this call's own time-out
+			if sa.IsZero() || sa.Before(ca) || sa.After(ca.Add(timeout*6/10)) {
 				flags["slipped-under-load"] = true
+				slipped[i] = true
 				continue
 			}
 		}
@@ -447,9 +452,12 @@ func c16Run(plan *C16Plan) (*c16Violation, map[string]bool) {
 		flags["mixed-concurrent"] = true
 	}
 	// retry phase: one call at a time, answered as soon as the request is seen
+	if len(plan.Retry) > 0 {
+		time.Sleep(60 * time.Millisecond) // let responses of the batch that are still under way arrive first
+	}
 	for _, idx := range plan.Retry {
-		if idx < 0 || idx >= n {
-			continue
+		if idx < 0 || idx >= n || slipped[idx] {
+			continue // (a response of the batch written too late could still answer the retry)
 		}
 		call := plan.Calls[idx]
 		srvMu.Lock()
@@ -658,7 +666,7 @@ func c16OutputsRun(sc *C16Outputs) (*c16Violation, map[string]bool) {
 		return &c16Violation{"C16/harness/listen", err.Error()}, flags
 	}
 	defer srv.close()
-	tc, err := newTestClient(srv.addr(), ConnectionTypeFull, 400*time.Millisecond, true)
+	tc, err := newTestClient(srv.addr(), ConnectionTypeFull, 5*time.Second, true)
 	if err != nil {
 		return &c16Violation{"C16/harness/client", err.Error()}, flags
 	}
